@@ -9,7 +9,10 @@
 (*           v <= Running  in version order                                *)
 (*  require  a source line  #require "name op v"  under an ISA that        *)
 (*           declares version iv: honoured iff the name matches and        *)
-(*           iv op v holds in version order (no op/v: the name alone)      *)
+(*           iv op v holds in version order (no op/v: the name alone).     *)
+(*           name: how the required name relates to the ISA's name - same, *)
+(*           other, a proper prefix / suffix / infix of it, longer, empty; *)
+(*           only "same" matches                                           *)
 (*                                                                         *)
 (* Versions are [rel, pre]: a release tuple of 2 or 3 numbers (missing     *)
 (* components are 0) and a pre-release rank (a < b < rc < final, with a    *)
@@ -43,6 +46,8 @@ MinSupported == Ver(<<0, 3, 0>>, Final)
 FaultOrder == << "deprecated_memory", "no_general", "no_instructions", "min_version_newer", "min_version_older", "origin_below_global",
                  "isa_version_not_semver", "register_keyword", "unknown_operand_type", "undeclared_register", "inverted_range",
                  "mnemonic_keyword", "mnemonic_keyword_upper", "missing_bytecode", "count_mismatch", "unknown_operand_set",
+                 "count_zero_with_list", "count_zero_unknown_set", "count_smaller_than_list", "variant_count_mismatch", "variant_count_zero_with_list",
+                 "variant_unknown_operand_set",
                  "macro_keyword", "macro_same_as_instruction", "zone_inverted", "zone_beyond_width", "zone_end_is_space_size",
                  "global_beyond_width" >>
 Faults == {FaultOrder[i] : i \in 1..Len(FaultOrder)}
@@ -59,7 +64,7 @@ Validate(x) == ValidateFrom(x, 1)
 Accepted(x) ==
     CASE x.kind = "def"     -> Validate(x) = "ok"
       [] x.kind = "minver"  -> VLe(MinSupported, x.v) /\ VLe(x.v, Running)
-      [] x.kind = "require" -> x.name /\ (x.op = "" \/ Cmp(x.iv, x.op, x.v))
+      [] x.kind = "require" -> x.name = "same" /\ (x.op = "" \/ Cmp(x.iv, x.op, x.v))
       [] OTHER -> FALSE
 
 Init == sc \in Scenarios
